@@ -12,7 +12,7 @@ Emit ==
         cfg == cs.cfg
         rows == cs.rows
         q == cs.q
-        base == [fam |-> cs.fam, ix |-> cs.ix, cfg |-> cfg, gu |-> StrU, rows |-> rows,
+        base == [fam |-> cs.fam, ix |-> cs.ix, cfg |-> cfg, gu |-> StrU, bu |-> BigU, rows |-> rows,
                  place |-> [i \in DOMAIN rows |-> Place(cfg, rows[i][1])], sp |-> cs.sp, q |-> q]
     IN IF IsSelectFam(cs.fam)
        THEN LET A == Answer(q, rows) IN
